@@ -16,6 +16,8 @@ type GenCfg struct {
 	NoPersist  bool // allow persist=false where the API offers it
 	FlagFields bool // C04: let data / elements name the writecheck field
 	MaxLen     int
+	SubElems   bool // C04: half of the delete-filter elements that can name a SUB element (value.scale, value.number,
+	// timePeriod.endTime ...) instead of the whole field; the code on main removes the whole field either way
 	RejectPct  int // C02: percentage of updates that the engine must reject whatever the data is (a partial
 	// filter with a selector but no data item, alone or after a delete filter that has already
 	// run on the working copy)
@@ -247,6 +249,21 @@ func (ti *TypeInfo) genElems(r *hx.Rng, flags bool) []int64 {
 	return el
 }
 
+// subElems turns some of the named elements into sub-element tags (2 = last, 3 = first sub element).
+func (ti *TypeInfo) subElems(r *hx.Rng, cfg GenCfg, el []int64) []int64 {
+	if !cfg.SubElems || el == nil {
+		return el
+	}
+	for j := range el {
+		if ti.HasSubElements(j) && (el[j] == 1 || r.Chance(1, 3)) && r.Bool() {
+			if i := ti.Elems[j]; i >= 0 && !ti.isKey(i) && !ti.selectable()[i] {
+				el[j] = int64(2 + r.Intn(2))
+			}
+		}
+	}
+	return el
+}
+
 // GenHistory: Init followed by 1..MaxLen updates of every filter shape.
 func (ti *TypeInfo) GenHistory(r *hx.Rng, cfg GenCfg) []hx.Zs {
 	direct := int64(0)
@@ -354,7 +371,7 @@ func (ti *TypeInfo) GenHistory(r *hx.Rng, cfg GenCfg) []hx.Zs {
 			fp = Filter{Present: true, Sel: sel}
 			switch r.Intn(3) {
 			case 0: // after a delete filter naming elements (with or without selector) has run
-				if el := ti.genElems(r, cfg.FlagFields); el != nil {
+				if el := ti.subElems(r, cfg, ti.genElems(r, cfg.FlagFields)); el != nil {
 					fd = Filter{Present: true, Elems: el}
 					if r.Bool() {
 						fd.Sel, _ = ti.genSelector(r)
@@ -409,14 +426,14 @@ func (ti *TypeInfo) GenHistory(r *hx.Rng, cfg GenCfg) []hx.Zs {
 			}
 			fd = Filter{Present: true, Sel: sel}
 		case 5: // delete + elements
-			el := ti.genElems(r, cfg.FlagFields)
+			el := ti.subElems(r, cfg, ti.genElems(r, cfg.FlagFields))
 			if el == nil {
 				continue
 			}
 			fd = Filter{Present: true, Elems: el}
 		case 6: // delete + selector + elements
 			sel, _ := ti.genSelector(r)
-			el := ti.genElems(r, cfg.FlagFields)
+			el := ti.subElems(r, cfg, ti.genElems(r, cfg.FlagFields))
 			if sel == nil || el == nil {
 				continue
 			}
@@ -428,7 +445,7 @@ func (ti *TypeInfo) GenHistory(r *hx.Rng, cfg GenCfg) []hx.Zs {
 			}
 			fd = Filter{Present: true, Sel: sel}
 			if r.Chance(1, 3) {
-				fd.Elems = ti.genElems(r, cfg.FlagFields)
+				fd.Elems = ti.subElems(r, cfg, ti.genElems(r, cfg.FlagFields))
 			}
 			fp = Filter{Present: true}
 			items = mergeList()
@@ -529,6 +546,99 @@ func (ti *TypeInfo) GenOverlapHistory(r *hx.Rng, rounds int) []hx.Zs {
 		op = append(op, encFilter(Filter{Present: true})...)
 		op = append(op, encFilter(Filter{})...)
 		h = append(h, op)
+	}
+	return h
+}
+
+// GenSubElementHistory (C04): the two situations in which a write THROUGH a shared pointer would show.
+// Elements carry struct-valued fields with two sub values (number and scale). (1) a remote write without
+// identifiers gives several elements one and the same value object (copyToAllData hands out one pointer),
+// the application then write-protects one of them, a remote delete with a selector for another element
+// and a sub-element tag is accepted: the protected, unaddressed element must keep its value. (2) a remote
+// delete without selector (addresses every element) naming a sub element is refused because of a
+// protected element: no element may have changed. Family 0 (FunctionData) or 3 (FeatureLocal write path).
+func (ti *TypeInfo) GenSubElementHistory(r *hx.Rng, family int) []hx.Zs {
+	h := []hx.Zs{{0, int64(ti.Index), 0, int64(family)}}
+	wire := int64(0)
+	if family == 3 {
+		wire = 1
+	}
+	var structs []int // struct-valued, non-key fields whose elements entry has sub elements
+	for j, i := range ti.Elems {
+		if i >= 0 && !ti.isKey(i) && !ti.selectable()[i] && ti.HasSubElements(j) {
+			structs = append(structs, j)
+		}
+	}
+	if len(structs) == 0 || len(ti.Keys) != 1 || len(ti.WC) != 1 {
+		return ti.GenHistory(r, GenCfg{Family: family, RemotePct: 55, FlagFields: true, SubElems: true, MaxLen: 7})
+	}
+	wc := ti.WC[0]
+	n := r.Range(3, 5)
+	var items [][]int64
+	for id := 1; id <= n; id++ {
+		it := ti.genItem(r, []int64{int64(id)}, 2, false, true)
+		it[wc] = 2 // changeable
+		for _, j := range structs {
+			it[ti.Elems[j]] = int64(1 + r.Intn(4))
+		}
+		items = append(items, it)
+	}
+	persist := int64(1)
+	if family == 3 {
+		persist = 2
+	}
+	h = append(h, ti.EncodeUpdate(0, persist, 0, items, Filter{}, Filter{}))
+	elems := func() []int64 {
+		el := make([]int64, len(ti.Elems))
+		for _, j := range structs {
+			if r.Chance(2, 3) {
+				el[j] = int64(2 + r.Intn(2))
+			}
+		}
+		el[structs[r.Intn(len(structs))]] = int64(2 + r.Intn(2))
+		return el
+	}
+	selFor := func(id int) []int64 {
+		sel := make([]int64, len(ti.Sel))
+		for j, sf := range ti.Sel {
+			if sf.Kind == SField && sf.Index == ti.Keys[0] {
+				sel[j] = int64(id) + 1
+			}
+		}
+		return sel
+	}
+	protect := func(id int) hx.Zs {
+		it := make([]int64, len(ti.Fields))
+		it[ti.Keys[0]] = int64(id) + 1
+		it[wc] = 1
+		return ti.EncodeUpdate(0, 1, 0, [][]int64{it}, Filter{Present: true}, Filter{})
+	}
+	for round := r.Range(1, 3); round > 0; round-- {
+		if r.Chance(2, 3) {
+			// one value object for all elements
+			it := make([]int64, len(ti.Fields))
+			for _, j := range structs {
+				it[ti.Elems[j]] = int64(1 + r.Intn(4))
+			}
+			h = append(h, ti.EncodeUpdate(1, 1, wire, [][]int64{it}, Filter{Present: true}, Filter{}))
+		}
+		p := 1 + r.Intn(n)
+		h = append(h, protect(p))
+		other := 1 + r.Intn(n)
+		switch r.Intn(3) {
+		case 0: // refused: addresses every element, one of them is protected
+			h = append(h, ti.EncodeUpdate(1, 1, wire, nil, Filter{}, Filter{Present: true, Elems: elems()}))
+		case 1: // accepted (or refused when it names the protected one): one element by selector
+			h = append(h, ti.EncodeUpdate(1, 1, wire, nil, Filter{}, Filter{Present: true, Sel: selFor(other), Elems: elems()}))
+		default: // delete by selector combined with a partial write to another element
+			it := ti.genItem(r, []int64{int64(1 + r.Intn(n))}, 2, true, false)
+			h = append(h, ti.EncodeUpdate(1, 1, wire, [][]int64{it}, Filter{Present: true}, Filter{Present: true, Sel: selFor(other), Elems: elems()}))
+		}
+		// make every element changeable again (local), so that the next round starts alike
+		it := make([]int64, len(ti.Fields))
+		it[ti.Keys[0]] = int64(p) + 1
+		it[wc] = 2
+		h = append(h, ti.EncodeUpdate(0, 1, 0, [][]int64{it}, Filter{Present: true}, Filter{}))
 	}
 	return h
 }
